@@ -25,7 +25,7 @@ pub struct UpdCase {
     pub segs: Vec<usize>,
     pub keep: usize,
     pub crlf: bool,
-    /// per test: 0 pass, 1 changed output, 2 changed exit code (non-zero), 3 changed output without final newline, 4 exit code 0 where another was expected
+    /// per test: 0 pass, 1 changed output, 2 changed exit code (non-zero), 3 changed output without final newline, 4 exit code 0 where another was expected, 5 changed output with fence look-alike lines
     pub outcomes: Vec<u8>,
     /// end-to-end replay through `scrut update --replace --assume-yes` with real commands: index into `cli_documents()`
     #[serde(default)]
@@ -104,6 +104,8 @@ fn outputs_for(tests: &[TestCase], kinds: &[u8]) -> Vec<Output> {
                 1 => Output { stdout: b"new1\nnew (glob)\n".to_vec().into(), stderr: vec![].into(), exit_code: ExitStatus::Code(expected) },
                 2 => Output { stdout: passing_output(tc).into(), stderr: vec![].into(), exit_code: ExitStatus::Code(if expected == 3 { 4 } else { 3 }) },
                 3 => Output { stdout: b"new1\nlast".to_vec().into(), stderr: vec![].into(), exit_code: ExitStatus::Code(expected) },
+                // changed output that contains fence look-alikes (an opening fence with info string, inline code after a fence run)
+                5 => Output { stdout: b"```json\n{}\n```sh `date`\n".to_vec().into(), stderr: vec![].into(), exit_code: ExitStatus::Code(expected) },
                 // the other direction of an exit code change: 0 where a code was expected (or 5 where none was)
                 _ => Output { stdout: passing_output(tc).into(), stderr: vec![].into(), exit_code: ExitStatus::Code(if expected != 0 { 0 } else { 5 }) },
             }
@@ -164,7 +166,12 @@ impl Engine for VcUpdate {
         let all = segments();
         let nseg = all.len();
         let lens: Vec<usize> = all.iter().map(|s| s.len()).collect();
-        let it = words_upto(nseg, s).flat_map(move |segs| {
+        let quick = tier == Tier::Quick;
+        let it = words_upto(nseg, s).filter(move |segs| {
+            // quick: in two-segment documents the first segment comes from a core subset (all prose / front-matter /
+            // verbatim / glued-title segments and every fifth scrut block variant); thorough: everything
+            !(quick && segs.len() == 2 && segs[0] >= 12 && (segs[0] - 12) % 5 != 0)
+        }).flat_map(move |segs| {
             let total: usize = segs.iter().map(|i| lens[*i]).sum();
             let first_of_last = total - segs.last().map(|i| lens[*i]).unwrap_or(0);
             let lens = lens.clone();
@@ -175,7 +182,10 @@ impl Engine for VcUpdate {
                     // number of tests is only known after parsing: enumerate outcome vectors up to 3 tests lazily in check
                     // here: one case per outcome vector index 0..4^3, filtered in check by the actual test count
                     let segs = segs.clone();
-                    (0..125u8).map(move |code| UpdCase { segs: segs.clone(), keep, crlf, outcomes: vec![code % 5, (code / 5) % 5, code / 25], cli_doc: None })
+                    (0..216u8).map(move |code| {
+                        let o = |v: u8| if v == 5 { 5 } else { v };
+                        UpdCase { segs: segs.clone(), keep, crlf, outcomes: vec![o(code % 6), o((code / 6) % 6), o(code / 36)], cli_doc: None }
+                    })
                 })
             })
         });
@@ -197,7 +207,7 @@ impl Engine for VcUpdate {
     }
     fn bound(&self, tier: Tier) -> String {
         format!(
-            "all documents of <= {} segments over vc_md's {} segments with every truncation inside the last segment (LF; CRLF for outcome vectors that differ in the first test only) that the parser accepts x every outcome vector in {{pass, changed output, changed exit code, changed output without final newline, exit code 0 instead of the expected one}}^n for the n <= 3 tests x 3 successive applications of update",
+            "all documents of <= {} segments (quick: first segment of two-segment documents from a core subset) over vc_md's {} segments with every truncation inside the last segment (LF; CRLF for outcome vectors that differ in the first test only) that the parser accepts x every outcome vector in {{pass, changed output, changed exit code, changed output without final newline, exit code 0 instead of the expected one, changed output with fence look-alikes}}^n for the n <= 3 tests x 3 successive applications of update",
             if tier == Tier::Quick { 2 } else { 3 },
             segments().len()
         )
